@@ -60,7 +60,14 @@ func session(name string, nUser, nHandler, m int, pacing string, rng *rand.Rand)
 		call func(c *client.Conn)
 	}
 	mk := func(sn string, i int) issue {
-		tag := fmt.Sprintf("s=%s;i=%d;%s", sn, i, strings.Repeat("x", rng.Intn(40)))
+		pad := rng.Intn(40)
+		if m := i % 9; m != 1 && m != 2 && rng.Intn(10) == 0 {
+			// a long line (the commands that do not split): around the 512-byte mark, or far beyond it
+			if pad = 440 + rng.Intn(120); rng.Intn(3) == 0 {
+				pad = 600 + rng.Intn(2400)
+			}
+		}
+		tag := fmt.Sprintf("s=%s;i=%d;%s", sn, i, strings.Repeat("x", pad))
 		switch i % 9 {
 		case 0:
 			return issue{"PRIVMSG #c :" + tag, func(c *client.Conn) { c.Raw("PRIVMSG #c :" + tag) }}
@@ -169,7 +176,11 @@ func session(name string, nUser, nHandler, m int, pacing string, rng *rand.Rand)
 	<-pacer
 	srv.SetBudget(-1)
 	if !s.Sync(20 * time.Second) {
-		return nil, fmt.Errorf("no PONG at the end: connection did not stay up")
+		if srv.IsClosed() || !s.C.Connected() {
+			return nil, fmt.Errorf("no PONG at the end: connection did not stay up")
+		}
+		// the connection is up but the answer to the final PING never showed up as a line of its own:
+		// the transcript is judged as it stands (lines lost or glued together are what C09 is about)
 	}
 	all, _ := srv.Lines()
 	for _, l := range all[skip:] {
